@@ -286,6 +286,35 @@ type encoded struct {
 	groups [][]*rtp.Packet
 }
 
+// arenaFrame re-materialises the units of a frame as sub-slices of ONE larger buffer, laid out in a random
+// memory order with small gaps, so that every unit has spare capacity behind it that belongs to its
+// neighbours (what a relay gets from a depacketizer, or a demuxer from a read buffer). An encoder that
+// appends to / writes through an input slice then visibly modifies the caller's other units.
+func arenaFrame(r *hx.Rand, f Frame) Frame {
+	total := 0
+	for _, u := range f {
+		total += len(u) + 8
+	}
+	arena := make([]byte, total+16)
+	order := make([]int, len(f))
+	for i := range order {
+		order[i] = i
+	}
+	for i := len(order) - 1; i > 0; i-- {
+		j := r.Intn(i + 1)
+		order[i], order[j] = order[j], order[i]
+	}
+	out := make(Frame, len(f))
+	off := r.Intn(4)
+	for _, idx := range order {
+		u := f[idx]
+		copy(arena[off:], u)
+		out[idx] = arena[off : off+len(u)] // cap reaches the end of the arena
+		off += len(u) + r.Intn(8)
+	}
+	return out
+}
+
 func (f *Format) encodeFrames(ctx *hx.Ctx, cfg Cfg, frames []Frame, prop string) (*encoded, bool) {
 	enc, err := f.NewEncoder(cfg.Max, cfg.Seq, cfg.SSRC, cfg.PT, cfg.Param)
 	if err != nil {
@@ -294,6 +323,10 @@ func (f *Format) encodeFrames(ctx *hx.Ctx, cfg Cfg, frames []Frame, prop string)
 	}
 	e := &encoded{cfg: cfg, frames: frames}
 	for i, fr := range frames {
+		if ctx.Rng.Intn(2) == 0 {
+			fr = arenaFrame(ctx.Rng, fr)
+			frames[i] = fr
+		}
 		before := cloneFrame(fr)
 		ps, err, pmsg := safeEncode(enc, fr)
 		if pmsg != "" {
